@@ -2,7 +2,7 @@
    kind = property*100 + sub-model.  [run] = what the model says the implementation must
    output on this input; [mon] = the property's monitor applied to the implementation's own
    observed output. *)
-From RainV Require Import Lib Tier Geometry SectionIO.
+From RainV Require Import Lib Tier Geometry SectionIO Meta.
 
 Definition run (kind : Z) (inp : list Z) : list Z :=
   match kind with
@@ -10,6 +10,7 @@ Definition run (kind : Z) (inp : list Z) : list Z :=
   | 202 => run_calc_blocks inp
   | 203 => run_section_io inp
   | 204 => run_create_jobs inp
+  | 601 => run_accept inp
   | 1601 => run_tier true inp
   | _ => [-999]
   end.
@@ -20,6 +21,7 @@ Definition mon (kind : Z) (inp obs : list Z) : bool :=
   | 202 => mon_calc_blocks inp obs
   | 203 => mon_section_io inp obs
   | 204 => mon_create_jobs inp obs
+  | 601 => mon_accept inp obs
   | 1601 => mon_tier inp obs
   | _ => false
   end.
